@@ -17,6 +17,7 @@ import (
 	"sync"
 	"sync/atomic"
 	"time"
+	"verif/appchild"
 
 	"github.com/TarsCloud/TarsGo/tars/protocol"
 	"github.com/TarsCloud/TarsGo/tars/util/gpool"
@@ -555,6 +556,7 @@ func scenarioTransport(proto string, workers, queue, n, trial int) {
 }
 
 func main() {
+	appchild.MaybeChild()
 	run = vlib.Start("C19")
 	rogger.SetLevel(rogger.OFF)
 	run.SetRule("configurations workers{1,2,8,64} x queue{0,1,16,1024} x submitters{1,8,64}; scenarios: A throughput (every job once, gauge<=workers, idle Release returns, no goroutine left), B capacity (workers+1+queue gated submissions complete without a gate opening), C Release with gated running jobs and 0/1/many backlog (stamp order), D Release racing with submitters, E bursts of requests into real TCP/UDP servers whose pool (MaxInvoke 1..4, QueueCap 0..2) is saturated by gated handlers (the receive loop is the submitter: block, never drop; at most MaxInvoke handlers at the gate). A case is (scenario, configuration, observed high-water mark / executed count); distinct by that key.")
@@ -625,6 +627,9 @@ func main() {
 		run.Set("race_detector", "on")
 	} else {
 		run.Set("race_detector", "off")
+	}
+	for _, n := range []int{2, 3} {
+		appPoolScenario(n)
 	}
 	run.Finish()
 }
